@@ -212,7 +212,7 @@ class Ctx:
         if n <= 1:
             return 0
         v = self.int(name, 0, n - 1)
-        return concretize(v)
+        return concretize(v, 0, n - 1)
 
     # ------------------------------------------------------------------ models
     def extract(self, model=None):
@@ -661,20 +661,24 @@ class FormatRegistry:
         return {tok: (sym, spec) for tok, sym, spec in self.tokens.values()}
 
 
-def concretize(s):
-    """Fork over the feasible values of an Int term (finite domain expected)."""
+def concretize(s, lo=None, hi=None):
+    """Fork over the feasible values of an Int term.  Candidates are tried in a FIXED order (lo..hi, or
+    0, 1, -1, 2, -2, ...): the branch conditions must not depend on which model the solver happens to
+    return, otherwise a decision prefix recorded by one run would meet other conditions when replayed
+    (models are not reproducible across worker processes)."""
     if not isinstance(s, Sym):
         return int(s)
     ctx = Ctx.cur
-    for _ in range(10000):
-        model = ctx._ensure_model()
-        v = model.eval(s.e, model_completion=True)
-        if not z3.is_int_value(v):
-            raise EncodingError(f"cannot concretise {s.e}")
-        val = v.as_long()
+    if lo is not None and hi is not None:
+        cands = range(lo, hi + 1)
+    else:
+        cands = [0] + [v for k in range(1, 513) for v in (k, -k)]
+    last = None
+    for val in cands:
+        last = val
         if ctx.branch(s.e == val):
             return val
-    raise EncodingError("concretisation does not terminate (unbounded domain)")
+    raise EncodingError(f"concretisation exhausted its candidates (last {last}) for {s.e}")
 
 
 def sym_any(it):
